@@ -1,4 +1,5 @@
 import BM.Props.C12
+import BM.Props.OracleModelC12
 import BM.Props.SrcPin.C12
 /- Top module of property C12: its theorems (BM.Props.C12) and the statement of which units of /repo's
    source its model and proofs were written against (BM/Props/SrcPin/C12.lean, re-checked against the
